@@ -210,6 +210,11 @@ func derive(in map[string]interface{}) map[string]interface{} {
 		// to the case's values (CreateUE itself picks NEA0/NIA2)
 		ue = stgutg.CreateUE(strings.TrimPrefix(str(in, "supi"), "imsi-"), 0, str(in, "k"), str(in, "opc"), str(in, "op"))
 		ue.CipheringAlg, ue.IntegrityAlg = uint8(num(in, "ea")), uint8(num(in, "ia"))
+	} else if str(in, "via") == "literal" {
+		// a context that did not go through the constructor (a struct literal, as a caller restoring a stored UE would build it):
+		// the derivation is a function of the subscription, the SUPI and the challenge, not of how the context came to be
+		ue = &tglib.RanUeContext{Supi: str(in, "supi"), RanUeNgapId: 1, AmfUeNgapId: -1, CipheringAlg: uint8(num(in, "ea")), IntegrityAlg: uint8(num(in, "ia"))}
+		ue.AuthenticationSubs = tglib.GetAuthSubscription(str(in, "k"), str(in, "opc"), str(in, "op"))
 	} else {
 		ue = tglib.NewRanUeContext(str(in, "supi"), 1, uint8(num(in, "ea")), uint8(num(in, "ia")))
 		ue.AuthenticationSubs = tglib.GetAuthSubscription(str(in, "k"), str(in, "opc"), str(in, "op"))
